@@ -1193,6 +1193,18 @@ def _select(a, i):
         for k, v in reversed(vals[:-1]):
             r = ite(i == k, v, r)
         return r
+    isint = [isinstance(v, (builtins.int, SymInt)) and not isinstance(v, bool) for _, v in vals]
+    if any(isint) and not all(isint) and sum(1 for x in isint if not x) <= 4:
+        # a few non-integer entries (e.g. the None at Log[0]): fork on exactly those, ite-chain over the rest
+        for (k, v), ok in zip(vals, isint):
+            if not ok:
+                if (i == k):
+                    return v
+        rest = [(k, v) for (k, v), ok in zip(vals, isint) if ok]
+        r = rest[-1][1]
+        for k, v in reversed(rest[:-1]):
+            r = ite(i == k, v, r)
+        return r
     B = _bits_cls()
     if B is not None and all(isinstance(v, B) for _, v in vals) and len(set(v.size for _, v in vals)) == 1:
         if lo == 0 and hi == n - 1 and n >= 4 and n & (n - 1) == 0 and all(type(v.ival) is builtins.int for _, v in vals):
